@@ -35,6 +35,7 @@ ENOENT = "ENOENT"
 
 class Malformed(Exception):
     ambiguous = False
+    elems = ()
 
 
 class _Unspecified(object):
@@ -294,22 +295,23 @@ def parse(s, pos=0):
     descriptor can be read there.  Unquoted white space anywhere but between
     the words of a key is not defined by the manual: the result (or the
     Malformed exception) is then marked ambiguous."""
+    elems = []
     try:
-        d = _parse(s, pos)
+        d = _parse(s, pos, elems)
     except Malformed as e:
         at = e.args[1] if len(e.args) > 1 else len(s)
         e.ambiguous = any(c in _WS for c in s[pos:at + 1])
+        e.elems = list(elems)       # the well-formed part read so far
         raise
     if d.end < len(s) and s[d.end] in _WS:
         d.ambiguous = True
     return d
 
 
-def _parse(s, pos):
+def _parse(s, pos, elems):
     n = len(s)
     p = pos
     amb = False
-    elems = []
 
     def at(i):
         return s[i] if i < n else -1
@@ -441,8 +443,13 @@ def _lookup(doc, d):
                 raise _Fail([ENOENT])
             node = node[el[1]]
         else:
-            # insert / append form in a non-set function
-            raise _Fail([EINVAL])
+            # insert / append form in a non-set function: EINVAL; when the
+            # node it is applied to is null or not a list, that documented
+            # condition holds at the same time
+            errs = {EINVAL}
+            if node is None:
+                errs |= set(_NULLNODE)
+            raise _Fail(errs)
     if d.suffix == "map":
         if node is None:
             raise _Fail(_NULLNODE)
@@ -524,7 +531,7 @@ def _syntax(op, s):
     except Malformed as e:
         if e.ambiguous:
             return UNSPECIFIED, True
-        return None, True
+        return e, True
     return d, d.end != len(s)
 
 
@@ -556,8 +563,16 @@ def apply(doc, op, arg):
     d, synerr = _syntax(op, s)
     if d is UNSPECIFIED:
         return UNSPECIFIED
-    if d is None:
-        return [Outcome(fail, {EINVAL}, doc, note="malformed descriptor")]
+    if isinstance(d, Malformed):
+        # EINVAL; an implementation that walks the tree while it reads the
+        # descriptor may meet a look-up error of the well-formed part first
+        errs = {EINVAL}
+        if op != "set_subtree":
+            try:
+                _lookup(doc, Desc(list(d.elems), None, 0, False))
+            except _Fail as f:
+                errs |= f.errnos
+        return [Outcome(fail, errs, doc, note="malformed descriptor")]
     if d.ambiguous:
         return UNSPECIFIED
     if synerr:
